@@ -119,6 +119,7 @@ type FuncSpec struct {
 	Used      bool
 	Fresh     bool // result is a freshly allocated reference
 	Holds     []HoldDecl
+	CallersNeed []string // properties under which every module function calling this one must itself be under contract
 	Waive     []string // obligations of this function whose name contains one of these labels are not generated (documented gaps)
 	NoSweep   []string // sweep kinds not generated for this function (reason goes to DESIGN.md / evidence)
 	Counted   []string // ghost counters bumped by the engine at every call of this function
@@ -131,6 +132,7 @@ type TypeSpec struct {
 	Guarded  []GuardDecl
 	Final    []string
 	FinalTags []string
+	FinalDecls []FinalDecl
 	Inits    []string // functions that run before the object is shared: exempt from final/guarded checks, no establishment obligation
 	Owns     []string // channel fields whose closed-state only the private writers change
 	Private  []PrivateDecl
@@ -140,6 +142,11 @@ type TypeSpec struct {
 	Invs     []*Clause
 	Ctors    []string
 	Line     string
+}
+
+type FinalDecl struct {
+	Fields []string
+	Tags   []string
 }
 
 type HoldDecl struct {
@@ -626,7 +633,7 @@ var clauseKeywords = map[string]bool{
 	"pred": true, "fun": true, "lemma": true, "ghost": true, "func": true, "extern": true, "type": true,
 	"callspec": true, "requires": true, "ensures": true, "modifies": true, "pure": true, "function": true, "inline": true,
 	"trusted": true, "loop": true, "before": true, "sweep": true, "guarded": true, "final": true, "atomic": true,
-	"confined": true, "private": true, "owns": true, "init": true, "holds": true, "helper": true, "counted": true, "sweepscope": true, "nosweep": true, "waive": true, "hb-by-channel": true, "invariant": true, "ctor": true, "params": true, "fresh": true, "end": true,
+	"confined": true, "private": true, "owns": true, "init": true, "holds": true, "helper": true, "counted": true, "sweepscope": true, "nosweep": true, "waive": true, "callers-need-contract": true, "hb-by-channel": true, "invariant": true, "ctor": true, "params": true, "fresh": true, "end": true,
 }
 
 type rawClause struct {
@@ -928,6 +935,10 @@ func parseSpecFile(path string, pkgPath string) (*SpecFile, error) {
 			if f := target(); f != nil {
 				f.Fresh = true
 			}
+		case "callers-need-contract":
+			if curF != nil {
+				curF.CallersNeed = append(curF.CallersNeed, splitNames(rest)...)
+			}
 		case "waive":
 			if curF != nil {
 				curF.Waive = append(curF.Waive, splitNames(rest)...)
@@ -1059,6 +1070,7 @@ func parseSpecFile(path string, pkgPath string) (*SpecFile, error) {
 				tags, _, body := parseTags(rest)
 				curT.FinalTags = append(curT.FinalTags, tags...)
 				curT.Final = append(curT.Final, splitNames(body)...)
+				curT.FinalDecls = append(curT.FinalDecls, FinalDecl{Fields: splitNames(body), Tags: tags})
 			case "init":
 				curT.Inits = append(curT.Inits, splitNames(rest)...)
 			case "owns":
